@@ -45,6 +45,9 @@ func (ex *Exec) callFunc(st *State, fr *Frame, c ssa.Instruction, fn *ssa.Functi
 	// In recover mode callees are executed, not abstracted: what happens after a violated callee
 	// precondition (panic or garbage) decides the property, and only the body knows.
 	inlineAll := ex.topFC != nil && ex.topFC.InlineCalls && ex.L.isRepoFunc(fn) && fn.Blocks != nil
+	if inlineAll && fr != nil && (strings.Contains(fr.chain, "in:"+shortFuncName(fn)) || fr.fn == fn) && ex.L.Contracts.lookup(fn) != nil {
+		inlineAll = false // recursion: the nested call is abstracted by its contract
+	}
 	if fc := ex.L.Contracts.lookup(fn); fc != nil && !fc.InlineOnly && !inlineAll && !(ex.recoverMode && ex.L.isRepoFunc(fn) && fn.Blocks != nil) {
 		return ex.callContract(st, fr, c, fn, fc, args, bind)
 	}
